@@ -10,6 +10,10 @@
 (*   div     source / destination alpha pairs on the division edges of the disjoint and       *)
 (*           conjoint operators: sa = 0, da = 0, sa = da, sa + da = 255 - 1, 255, 255 + 1      *)
 (*   sat     large values (saturating sums)                                                   *)
+(*   superlum  non-premultiplied sources whose alpha is 0 or tiny and whose colours are not     *)
+(*           ("super-luminant"): nothing may be skipped because alpha is 0                     *)
+(*   rnd     arbitrary values 0..255 in every channel (rounding of products off the boundary   *)
+(*           set); rndpm the same, premultiplied                                               *)
 (* The orchestrator maps each row onto format triples and source presentations, executes it   *)
 (* on the real library and has the recorded trace validated against Combine.tla.              *)
 EXTENDS Combine, TLC, Json
@@ -18,8 +22,8 @@ VARIABLES op, mode, fam
 
 B8 == {0, 1, 2, 127, 128, 129, 254, 255}
 Modes == {"none", "unified", "ca"}
-Fams == {"any", "premul", "edge", "cazero", "div", "sat"}
-FamIdx(f) == CASE f = "any" -> 0 [] f = "premul" -> 1 [] f = "edge" -> 2 [] f = "cazero" -> 3 [] f = "div" -> 4 [] f = "sat" -> 5
+Fams == {"any", "premul", "edge", "cazero", "div", "sat", "rnd", "rndpm", "superlum"}
+FamIdx(f) == CASE f = "any" -> 0 [] f = "premul" -> 1 [] f = "edge" -> 2 [] f = "cazero" -> 3 [] f = "div" -> 4 [] f = "sat" -> 5 [] f = "rnd" -> 6 [] f = "rndpm" -> 7 [] f = "superlum" -> 8
 ModeIdx(m) == CASE m = "none" -> 0 [] m = "unified" -> 1 [] m = "ca" -> 2
 
 R(S) == RandomElement(S)
@@ -27,6 +31,9 @@ Le(a) == {x \in B8 : x <= a}
 PxAny == <<R(B8), R(B8), R(B8), R(B8)>>
 PxPremulA(a) == <<a, R(Le(a)), R(Le(a)), R(Le(a))>>          \* the argument is evaluated once
 PxPremul == PxPremulA(R(B8))
+All8 == 0..255
+PxRnd == <<R(All8), R(All8), R(All8), R(All8)>>
+PxRndPmA(a) == <<a, R(0..a), R(0..a), R(0..a)>>
 Big == {128, 129, 254, 255}
 PxBigA(a) == <<a, R({x \in Big : x <= a}), R({x \in Big : x <= a}), R({x \in Big : x <= a})>>
 DivPairs == {p \in B8 \X B8 : p[1] + p[2] \in {254, 255, 256} \/ p[1] = p[2] \/ p[1] = 0 \/ p[2] = 0}
@@ -40,6 +47,10 @@ Tuple(f) ==
       [] f = "cazero" -> [s |-> PxPremul, m |-> <<R(B8), R({0, 255}), 0, R({0, 1, 254})>>, d |-> PxPremul]
       [] f = "div"    -> PxPair(R(DivPairs), R({<<255, 255, 255, 255>>, <<255, 255, 255, 255>>, <<128, 255, 127, 0>>}))
       [] f = "sat"    -> [s |-> PxBigA(R(Big)), m |-> <<R(Big), R(Big), R(Big), R(Big)>>, d |-> PxBigA(R(Big))]
+      [] f = "rnd"    -> [s |-> PxRnd, m |-> PxRnd, d |-> PxRnd]
+      [] f = "superlum" -> [s |-> <<R({0, 0, 1, 128}), R(B8 \ {0}), R(B8), R({255, 254, 129})>>,
+                            m |-> <<R({255, 255, 128, 0}), R(B8), R(B8), R(B8)>>, d |-> PxAny]
+      [] f = "rndpm"  -> [s |-> PxRndPmA(R(All8)), m |-> PxRnd, d |-> PxRndPmA(R(All8))]
 
 RowLen == ((op + 7 * FamIdx(fam) + 3 * ModeIdx(mode)) % 19) + 1
 Row == [i \in 1..RowLen |-> Tuple(fam)]
